@@ -9,6 +9,7 @@ import (
 	segment "github.com/blevesearch/scorch_segment_api/v2"
 
 	"verif/harness/model"
+	"verif/harness/zx"
 )
 
 func removeFile(p string) { os.Remove(p) }
@@ -111,3 +112,34 @@ func listDir(dir string) []string {
 	}
 	return out
 }
+
+// sizedBatch tunes a one-document batch (one incompressible stored value) until
+// the segment body built from it is exactly target bytes long: image sizes at
+// powers of two, where buffered writers and piece-wise copies switch paths.
+// Returns nil when the size is not reached within a few tries.
+func sizedBatch(rng *rand.Rand, target uint64) *model.Batch {
+	if target < 400 {
+		return nil
+	}
+	l := int64(target) - 200
+	val := make([]byte, target+64)
+	for i := range val {
+		val[i] = byte(rng.Intn(256))
+	}
+	for try := 0; try < 10 && l > 0 && l <= int64(len(val)); try++ {
+		b := &model.Batch{Docs: []model.Doc{{ID: "sized", Fields: []model.FieldInst{
+			{Name: "blob", Type: 't', Stored: true, Value: val[:l], Len: 1, Toks: []model.Tok{{Term: "x", Freq: 1}}}}}}}
+		seg, size, err := zx.Build(b)
+		if err != nil {
+			return nil
+		}
+		seg.Close()
+		if size == target {
+			return b
+		}
+		l += int64(target) - int64(size)
+	}
+	return nil
+}
+
+var sizedTargets = []uint64{1 << 20, 2 << 20, 4096, 65536, 1<<20 - 52, 4096 - 52, 1<<20 + 1, 65536 - 52}
